@@ -206,9 +206,9 @@ fn main() {
                 ctx.hist("query-order-checked", 1);
             }
         }
-        let mut sorted = got.clone();
-        sorted.sort();
-        answers_of.insert(i, sorted);
+        // answers in the order delivered: a consistent renaming changes nothing, not even the
+        // order (the engine is deterministic and names play no role in it)
+        answers_of.insert(i, got.clone());
         if let Some(j) = c.twin_of {
             if let Some(orig) = answers_of.get(&j) {
                 if *orig != *answers_of.get(&i).unwrap() {
